@@ -255,6 +255,28 @@ func executeCart(id string, sc *engine.Scenario, focus string) *engine.Result {
 		}
 		return true
 	}
+	dumpOK := func(when string) bool {
+		got := m.Map.DumpRAM()
+		want := ct.Dump()
+		if len(got) != len(want) {
+			fail("dump-size", m.N, "RAM dump (%s) has %d bytes, expected %d (%d banks)", when, len(got), len(want), ct.RamBanks)
+			return false
+		}
+		for i := range got {
+			g, w := got[i], want[i]
+			if kind == "mbc2" {
+				if !ct.Written[0][i] {
+					continue
+				}
+				g, w = g&0x0f, w&0x0f
+			}
+			if g != w {
+				fail("dump-content", m.N, "RAM dump (%s) byte %d (bank %d offset %04x) is %02x, stored %02x", when, i, i/0x2000, i%0x2000, got[i], want[i])
+				return false
+			}
+		}
+		return true
+	}
 	ei := 0
 	ok := probe(0)
 	for m.N < sc.Cycles && ok {
@@ -302,6 +324,13 @@ func executeCart(id string, sc *engine.Scenario, focus string) *engine.Result {
 			if ok {
 				ok = probe(m.N)
 			}
+			if ok && focus == "ram" && kind != "rom" && ei%37 == 0 {
+				// the RAM dump may be asked for at any time (and more than once): it shows the stored bytes
+				if !dumpOK("mid-history") {
+					ok = false
+				}
+				res.Probe("dump_compared_mid_history")
+			}
 			if ct.RomPageHigh() == 0 {
 				res.Probe("page0_in_high_window")
 			}
@@ -323,27 +352,9 @@ func executeCart(id string, sc *engine.Scenario, focus string) *engine.Result {
 	}
 	if ok && focus == "ram" {
 		// the cartridge RAM dump shows exactly the stored bytes
-		got := m.Map.DumpRAM()
-		want := ct.Dump()
 		if kind != "rom" {
-			if len(got) != len(want) {
-				fail("dump-size", m.N, "RAM dump has %d bytes, expected %d (%d banks)", len(got), len(want), ct.RamBanks)
-			} else {
-				for i := range got {
-					g, w := got[i], want[i]
-					if kind == "mbc2" {
-						if !ct.Written[0][i] {
-							continue
-						}
-						g, w = g&0x0f, w&0x0f
-					}
-					if g != w {
-						fail("dump-content", m.N, "RAM dump byte %d (bank %d offset %04x) is %02x, stored %02x", i, i/0x2000, i%0x2000, got[i], want[i])
-						break
-					}
-				}
-			}
-		} else if len(got) != 0 {
+			dumpOK("end")
+		} else if got := m.Map.DumpRAM(); len(got) != 0 {
 			fail("dump-size", m.N, "ROM-only cartridge dumps %d bytes of RAM", len(got))
 		}
 		res.Probe("dump_compared")
